@@ -78,6 +78,13 @@ GARBAGE = {
     "fiber_daisy_chain": "var g17 = daisy(prevf); g17.call(); prevf = g17;",
     "import_uncompilable": 'try { impbad(); } catch e12 { acc = acc + 1; }',
     "import_uncompilable_once": 'if i == 3 { try { impbad(); } catch e13 { acc = acc + 1; } }',
+    # loops left early: the loop variable, the hidden iterator and the collection must be dropped on that path too
+    "for_break": "for e14 in [[i], [i], [i]] { acc = acc + 1; if acc > 0 { break; } }",
+    "while_break": "var w1 = [i]; while true { w1 = [w1]; if w1.len() > 0 { break; } }",
+    "for_continue": "for e17 in [[i], [i]] { if acc >= 0 { continue; } acc = acc + 1; }",
+    # class declarations that fail half-way (between declaring the name and defining the class)
+    "class_decl_undefined_base": "try { #[derive(NoSuchBase)] class Tmp1 { fn m(self) { return 1; } } } catch e15 { acc = acc + 1; }",
+    "class_decl_bad_base": "try { var nb = [i]; #[derive(nb)] class Tmp2 { fn m(self) { return 1; } } } catch e16 { acc = acc + 1; }",
 }
 EXTRA = """fn fpc(site, pad) { var l = [pad]; print(("chk", site)); return l; }
 fn fret(x) { try { return [x, x]; } finally { mkclo(x); } }
